@@ -626,7 +626,7 @@ class ProverCheck(TraceCheck):
 class C02(ProverCheck):
     name = "C02"
     prop = "C02"
-    budget = {"quick": 400, "thorough": 12000}
+    budget = {"quick": 800, "thorough": 16000}
     weights = VALUE_OPS
     rule = ("plans of 1-3 value-returning operations (every operator, the three operand-kind combinations, "
             "selection, bit round trips, boolean and fixed-point operators) at bitlength 2-5 on tiny/boundary "
@@ -764,7 +764,7 @@ def _boundary(rng, center, bl, extra=()):
 class C03(ProverCheck):
     name = "C03"
     prop = "C03"
-    budget = {"quick": 500, "thorough": 20000}
+    budget = {"quick": 840, "thorough": 25000}
     kinds = ["lt", "le", "eq", "ne", "gt", "ge", "zero", "nonzero", "positive", "positive_n", "range",
              "range_secret", "tobool", "bits_n", "bool_cmp", "fxp_cmp", "fxp_range", "gt", "lt", "positive_n",
              "range", "bool_vs_int", "boolop_int", "fxp_const_other_resolution", "int_const_other_bitlength",
@@ -1146,7 +1146,7 @@ def _force_top(sc, bits, pos, rng):
 class C16(ProverCheck):
     name = "C16"
     prop = "C16"
-    budget = {"quick": 400, "thorough": 15000}
+    budget = {"quick": 700, "thorough": 20000}
     wire_budget = 600
     shadow_budget = 8
     rule = ("(a) to_bits(n)/from_bits and assert_positive(n) with n in 1..bitlength+2 independent of the "
@@ -1946,7 +1946,7 @@ class C18(TraceCheck):
     name = "C18"
     prop = "C18"
     props = ()
-    budget = {"quick": 640, "thorough": 25000}
+    budget = {"quick": 1100, "thorough": 30000}
     components = REAL_EXIT
     run_cap_s = 300
     rule = ("one fresh interpreter per (plan, statement position k, termination mode x argument, backend, "
@@ -2170,7 +2170,7 @@ class C19(TraceCheck):
     name = "C19"
     prop = "C19"
     props = ()
-    budget = {"quick": 320, "thorough": len(c19_configs())}
+    budget = {"quick": 700, "thorough": len(c19_configs())}
     exhaustive_tiers = ("thorough",)
     components = REAL_EXIT
     run_cap_s = 300
@@ -2473,7 +2473,7 @@ class C20(TraceCheck):
     name = "C20"
     prop = "C20"
     props = ()
-    budget = {"quick": 96, "thorough": 2400}
+    budget = {"quick": 192, "thorough": 3000}
     components = REAL_EXIT + "; the reference Poseidon permutation/sponge and subset-sum are plain-integer code in " \
         "the checker, with round constants and matrices read from pysnark/poseidon_constants.py as data"
     run_cap_s = 600
@@ -4369,7 +4369,7 @@ class C12(TraceCheck):
     name = "C12"
     prop = "C12"
     props = ()
-    budget = {"quick": 1500, "thorough": 80000}
+    budget = {"quick": 2400, "thorough": 90000}
     components = ("real: pysnark/qaptools/{backend,qapsplit,schedule,options,runqapgen,runqapinput,runqapgenf,"
                   "runqapprove,runqapver}.py and pysnark/runtime.py over a simulated directory; stubs: SimFS (my model "
                   "of CPython text-file buffering and visibility; cross-checked against a real directory by "
